@@ -171,6 +171,9 @@ type execEngine struct {
 	pipe     *node
 	pipeH    uint64
 	pipeWait []pipeBlk
+	// proposal attempt announced by `propose <creator>` and the creator's proposal count before it
+	attempt       string
+	attemptBefore int
 }
 
 type pipeBlk struct {
@@ -278,6 +281,7 @@ func (e *execEngine) step(ws []string) string {
 			fail("template: %v", templateErr)
 		}
 		e.reset()
+		propMap, propNext, e.attempt = map[string]map[int]int{}, map[string]int{}, ""
 		o := kv(ws[1:])
 		price, _ := strconv.ParseInt(o["price"], 10, 64)
 		if o["price"] == "" {
@@ -339,8 +343,30 @@ func (e *execEngine) step(ws []string) string {
 			e.admInit[a] = e.nodes[0].ldg.Copy().GetBalance(acct(a).addr)
 		}
 		return fmt.Sprintf("ok h=%d", e.nodes[0].exec.VerifHeight())
+	case "propose": // propose <creator> : the next block carries a proposal submission attempt of that account
+		if len(ws) != 2 || len(e.nodes) == 0 {
+			return "bad-op"
+		}
+		e.attempt, e.attemptBefore = ws[1], e.proposalCount(ws[1])
+		if _, ok := propNext[ws[1]]; !ok {
+			propNext[ws[1]] = e.attemptBefore
+			propMap[ws[1]] = map[int]int{}
+		}
+		return "ok"
 	case "block":
-		return e.block(ws[1:])
+		out := e.block(ws[1:])
+		if e.attempt != "" {
+			after := e.proposalCount(e.attempt)
+			g := propNext[e.attempt]
+			if after > e.attemptBefore {
+				propMap[e.attempt][g] = e.attemptBefore
+			} else {
+				propMap[e.attempt][g] = -1
+			}
+			propNext[e.attempt] = g + 1
+			e.attempt = ""
+		}
+		return out
 	case "reorg": // reorg <height> <txs...> : consensus delivers another block for a height the node has already executed
 		if len(ws) < 2 || len(e.nodes) == 0 {
 			return "bad-op"
@@ -601,6 +627,19 @@ func (e *execEngine) buildTx(n *node, t []string) (pb.Transaction, bool, error) 
 }
 
 func (e *execEngine) block(ws []string) string { return e.blockAt(0, ws) }
+
+// proposalCount: how many proposals the account has created so far (GetProposalsByFrom through the view executor)
+func (e *execEngine) proposalCount(name string) int {
+	r := e.nodes[0].view(constant.GovernanceContractAddr.Address(), "GetProposalsByFrom", pb.String(acct(name).addr.String()))
+	if !r.IsSuccess() {
+		return 0
+	}
+	var l []json.RawMessage
+	if err := json.Unmarshal(r.Ret, &l); err != nil {
+		return 0
+	}
+	return len(l)
+}
 
 func (e *execEngine) blockAt(at uint64, ws []string) string {
 	if len(e.nodes) == 0 {
@@ -899,7 +938,12 @@ func (e *execEngine) query(ws []string) string {
 		if p.LockProposalId != "" {
 			lock = p.LockProposalId
 			if k := strings.LastIndex(lock, "-"); k > 0 {
-				lock = "@" + nameOf(lock[:k]) + lock[k:]
+				nm := nameOf(lock[:k])
+				if real, err := strconv.Atoi(lock[k+1:]); err == nil {
+					lock = "@" + nm + "-" + strconv.Itoa(propGenIndex(nm, real))
+				} else {
+					lock = "@" + nm + lock[k:]
+				}
 			}
 		}
 		return fmt.Sprintf("- ## status=%s a=%d r=%d init=%d avail=%d special=%d super=%d typ=%s ev=%s obj=%s last=%s strat=%s expr=%s end=%s voters=[%s] electorate=[%s] lock=%s",
@@ -924,6 +968,12 @@ func (e *execEngine) query(ws []string) string {
 			r = n.view(constant.RoleContractAddr.Address(), "GetRoleInfoById", arg)
 		case "rule":
 			r = n.view(constant.RuleManagerContractAddr.Address(), "GetMasterRule", pb.String(ws[2]))
+		case "node":
+			arg, err := parseArg("s:" + ws[2])
+			if err != nil {
+				return "bad-op"
+			}
+			r = n.view(constant.NodeManagerContractAddr.Address(), "GetNode", arg)
 		default:
 			return "bad-op"
 		}
